@@ -49,3 +49,8 @@ func (v *VerifProcessor) Facade(originNetwork uint32) *BridgeSync {
 
 // VerifProcessorOf returns the processor behind a fully built *BridgeSync.
 func VerifProcessorOf(s *BridgeSync) *VerifProcessor { return &VerifProcessor{p: s.processor} }
+
+// FacadeWithDetector is Facade plus a reorg detector (GetLastReorgEvent needs one).
+func (v *VerifProcessor) FacadeWithDetector(originNetwork uint32, rd ReorgDetector) *BridgeSync {
+	return &BridgeSync{processor: v.p, originNetwork: originNetwork, reorgDetector: rd}
+}
